@@ -110,6 +110,8 @@ namespace Dune
   class Combine
   {
   public:
+    /** @brief The type the set holds. */
+    typedef TA Type;
     static bool contains(const TA& item);
   };
 
